@@ -87,7 +87,10 @@ def install_after_import(S, spec):
 
     # coarse phase markers, set from outside
     def mark(obj, name, phase):
-        orig = getattr(obj, name)
+        orig = getattr(obj, name, None)
+        if orig is None:   # the code under test was refactored: a phase label is a convenience, not a requirement
+            S.probe("phase_marker_missing_" + name)
+            return
 
         def w(*a, **k):
             old = S.phase
